@@ -58,6 +58,13 @@ impl<'a> Writer<'a> {
         }
     }
 
+    /// optional blank(s) between two tokens where the tokenizer skips them (before a comma, inside brackets)
+    fn gap(&mut self) {
+        if self.flip(1, 6, "space-between-tokens") {
+            self.out.push(' ');
+        }
+    }
+
     pub fn str_lit(&mut self, s: &str) {
         self.out.push('"');
         for c in s.chars() {
@@ -141,7 +148,34 @@ impl<'a> Writer<'a> {
             } else {
                 ""
             };
-            format!("{}{}{}{}", mant, echar, sign, exp.abs())
+            // <exp> := ("e"|"E") ["+"|"-"] <digits>, and <digits> may hold '_' after the first digit
+            let ed = format!("{}", exp.abs());
+            let ed = if ed.len() > 1 && self.flip(1, 3, "exponent-digit-underscore") {
+                let mut t = String::new();
+                for (i, c) in ed.chars().enumerate() {
+                    if i > 0 && self.rng.coin() {
+                        t.push('_');
+                    }
+                    t.push(c);
+                }
+                t
+            } else {
+                ed
+            };
+            // '_' in the mantissa's integer and fraction digits as well
+            let mant = if self.flip(1, 5, "mantissa-underscore") {
+                let (neg, body) = match mant.strip_prefix('-') {
+                    Some(b) => ("-", b),
+                    None => ("", mant),
+                };
+                match body.split_once('.') {
+                    Some((i, f)) if f.len() > 1 => format!("{neg}{i}.{}_{}", &f[..1], &f[1..]),
+                    _ => format!("{neg}{body}"),
+                }
+            } else {
+                mant.to_string()
+            };
+            format!("{}{}{}{}", mant, echar, sign, ed)
         } else {
             let (neg, body) = match plain.strip_prefix('-') {
                 Some(b) => (true, b.to_string()),
@@ -281,6 +315,7 @@ impl<'a> Writer<'a> {
         for r in &g.rows {
             for (i, c) in g.cols.iter().enumerate() {
                 if i > 0 {
+                    self.gap();
                     self.out.push(',');
                     self.sp();
                 }
@@ -344,8 +379,10 @@ impl<'a> Writer<'a> {
             }
             MVal::List(l) => {
                 self.out.push('[');
+                self.gap();
                 for (i, e) in l.iter().enumerate() {
                     if i > 0 {
+                        self.gap();
                         self.out.push(',');
                         self.sp();
                     }
@@ -354,11 +391,14 @@ impl<'a> Writer<'a> {
                 if !l.is_empty() && self.flip(1, 4, "list-trailing-comma") {
                     self.out.push(',');
                 }
+                self.gap();
                 self.out.push(']');
             }
             MVal::Dict(d) => {
                 self.out.push('{');
+                self.gap();
                 self.tags(d, true);
+                self.gap();
                 self.out.push('}');
             }
             MVal::Grid(g) => self.grid(g, true),
